@@ -1,5 +1,6 @@
 import Mp.GoVal
 import Mp.Fold
+import Mp.Json
 /-! Prototype: mpath's evaluator (post-repair semantics) over GoVal. Core-only. -/
 namespace Mp
 
@@ -339,6 +340,17 @@ def pureFunc (name : String) (ps : List Prm) (val : GoVal) : Option Out :=
   | "Minimum" => some (decimalSlice ps val Dec.minL)
   | "Maximum" => some (decimalSlice ps val Dec.maxL)
   | "AsArray" => some (.ok (.slice true false [val]))
+  -- funcs.go stringToObjectFunc + json.Unmarshal into map[string]any (Mp/Json.lean: plain ASCII JSON; anything else is declined)
+  | "ParseJSON" => some (
+      if !count0 then .err else
+      if isEmptyValue (RV.of val) then .ok (.map .str true [] []) else
+      match val with
+      | .str false s =>
+        (match GoJson.unmarshalObject s with
+         | none => .unmodelled
+         | some none => .err
+         | some (some m) => .ok m)
+      | _ => .err)
   | "Add" => some (decOp Dec.add false (fun _ _ => true))
   | "Subtract" => some (decOp Dec.sub false (fun _ _ => true))
   | "Multiply" => some (decOp Dec.mul false (fun d p => inI32 (d.exp + p.exp)))   -- the decimal type holds its exponent in 32 bits: a product outside that range is an error
